@@ -7,6 +7,7 @@ import (
 	"fmt"
 	mh "github.com/multiformats/go-multihash"
 	"io"
+	"os"
 	"sort"
 	"strings"
 	"testing"
@@ -99,6 +100,31 @@ func TestC10_P_Deterministic(t *testing.T) {
 				}
 				return buildFileR(st.LinkSystem(), r, ck.Name, w)
 			})
+			// the same bytes delivered by seekable readers that stand somewhere in the middle of a larger stream (the caller
+			// has consumed a header): what is built is what the reader still has to give
+			hdr := rapid.IntRange(1, 64).Draw(t, "headerLen")
+			whole := append(lcgBytes(hdr, 99, 0), content...)
+			run("section-reader-after-header", func(st *Store) (cid.Cid, uint64, error) {
+				sr := io.NewSectionReader(bytes.NewReader(whole), 0, int64(len(whole)))
+				_, _ = io.CopyN(io.Discard, sr, int64(hdr))
+				return buildFileR(st.LinkSystem(), sr, ck.Name, w)
+			})
+			if rapid.IntRange(0, 3).Draw(t, "osFile") == 0 {
+				run("os.File-after-header", func(st *Store) (cid.Cid, uint64, error) {
+					f, err := os.CreateTemp("", "verif-c10-")
+					if err != nil {
+						return cid.Undef, 0, err
+					}
+					defer func() { f.Close(); os.Remove(f.Name()) }()
+					if _, err := f.Write(whole); err != nil {
+						return cid.Undef, 0, err
+					}
+					if _, err := f.Seek(int64(hdr), io.SeekStart); err != nil {
+						return cid.Undef, 0, err
+					}
+					return buildFileR(st.LinkSystem(), f, ck.Name, w)
+				})
+			}
 			minFrag := pattern[0]
 			for _, p := range pattern {
 				if p < minFrag {
